@@ -10,7 +10,8 @@ use circ::{Rc, Weak};
 
 use crate::exec::{Body, Params, Program};
 use crate::scen::ScenarioDef;
-use crate::world::{Ctx, World};
+use crate::monitor::mon;
+use crate::world::{Ctx, Node, World};
 
 macro_rules! scen {
     ($name:expr, $f:ident, $about:expr) => {
@@ -71,7 +72,14 @@ pub static SCENARIOS: &[ScenarioDef] = &[
         "C14: a cascade over more than 128 nodes re-pins the reclaiming thread in the middle while another thread is pinned"),
     scen!("rc/concurrent-release", concurrent_release,
         "two threads release the last two handles of one graph concurrently"),
+    scen!("rc/latency-vs-holder", latency_vs_holder,
+        "C06: the head of an aged chain of n nodes is dropped while another thread releases its handle to node k; afterwards all n nodes must be destructed within the grace-period bound"),
 ];
+
+/// advances the global epoch once without flushing or collecting anything
+fn cv_try_advance() {
+    circ::verif::try_advance();
+}
 
 fn base(p: &Params) -> Program {
     Program {
@@ -109,11 +117,15 @@ fn build_chain2(c: &Ctx, w: &'static World, r: usize, age: usize) {
 
 fn upgrade_vs_attempt(p: &Params) -> Program {
     let pre = p.get("pre", 2) as usize;
+    let dist = p.get("dist", 0) as usize;
     Program {
         setup: Some(body(move |c, w| {
             let x = c.new_node(1);
             let wk = c.downgrade(&x);
             c.drop_rc(x);
+            for _ in 0..dist.saturating_sub(pre) {
+                cv_try_advance();
+            }
             c.rounds(pre);
             w.weak[0].put(wk);
         })),
@@ -650,6 +662,10 @@ fn snapshot_then_drop(p: &Params) -> Program {
 
 fn ws_upgrade_vs_attempt(p: &Params) -> Program {
     let pre = p.get("pre", 2) as usize;
+    // dist > 0: the last decrement happened `dist` epochs before the setup ends, the attempt
+    // staying in the dropping thread's unflushed bag meanwhile (dist = 16, 32: the 4-bit stamp of
+    // that decrement aliases the epoch at which the reader upgrades)
+    let dist = p.get("dist", 0) as usize;
     Program {
         setup: Some(body(move |c, w| {
             let x = c.new_node(1);
@@ -658,6 +674,9 @@ fn ws_upgrade_vs_attempt(p: &Params) -> Program {
             c.wstore(&w.wroots[0], wk, &g);
             c.unpin(g);
             c.drop_rc(x);
+            for _ in 0..dist.saturating_sub(pre) {
+                cv_try_advance();
+            }
             c.rounds(pre);
         })),
         threads: vec![
@@ -1015,6 +1034,64 @@ fn concurrent_release(p: &Params) -> Program {
                 c.rounds(4);
             }),
         ],
+        ..base(p)
+    }
+}
+
+/// C06 with the one concurrent ingredient the statement allows: the externally held node stops
+/// being "referenced from elsewhere" while the cascade is at work.
+fn latency_vs_holder(p: &Params) -> Program {
+    let n = p.get("n", 5) as usize;
+    let k = p.get("k", 2) as usize;
+    let age = p.get("age", 4) as usize;
+    Program {
+        setup: Some(body(move |c, w| {
+            let g = c.pin();
+            let mut next: Option<Rc<Node>> = None;
+            for i in (0..n).rev() {
+                let nd = c.new_node(i as u32 + 1);
+                if let Some(r) = next.take() {
+                    c.store(&c.node(&nd).next[0], r, &g);
+                }
+                if i == k {
+                    w.rc[1].put(c.clone_rc(&nd));
+                }
+                next = Some(nd);
+            }
+            c.unpin(g);
+            w.rc[0].put(next.unwrap());
+            c.rounds(age);
+        })),
+        threads: vec![
+            body(|c, w| {
+                // enough rounds for the cascade to run on this thread
+                let r = w.rc[0].take();
+                c.drop_rc(r);
+                c.rounds(4);
+            }),
+            body(|c, w| {
+                let r = w.rc[1].take();
+                c.drop_rc(r);
+            }),
+        ],
+        post: Some(body(move |c, _w| {
+            let bound = crate::scen::seq::latency_bound(n);
+            let mut used = 0usize;
+            while mon().destructs < n as u64 {
+                if used > bound {
+                    let done = mon().destructs;
+                    mon().violate(
+                        "C06",
+                        "too-many-grace-periods",
+                        format!("only {} of {} nodes destructed {} rounds after both releases (bound {})", done, n, used, bound),
+                    );
+                    break;
+                }
+                c.round();
+                used += 1;
+            }
+            mon().mix_outcome(0x6100 ^ used as u64);
+        })),
         ..base(p)
     }
 }
